@@ -660,9 +660,9 @@ func (e *Exec) runFrame(f *Frame) (done []Outcome, more []*Frame) {
 							f.runningDefers = false
 							continue
 						}
-						return []Outcome{{Kind: OutReturn, St: f.st, Ret: e.zeroResults(f.fn)}}, nil
+						return append(done, Outcome{Kind: OutReturn, St: f.st, Ret: e.zeroResults(f.fn)}), more
 					}
-					return []Outcome{{Kind: OutPanic, St: f.st, Pan: f.unwinding.val}}, nil
+					return append(done, Outcome{Kind: OutPanic, St: f.st, Pan: f.unwinding.val}), more
 				}
 				// normal RunDefers finished
 				f.runningDefers = false
@@ -675,7 +675,7 @@ func (e *Exec) runFrame(f *Frame) (done []Outcome, more []*Frame) {
 			fr, d2 := e.continueAfterCall(f, nil, outs)
 			done = append(done, d2...)
 			if len(fr) == 0 {
-				return done, nil
+				return done, more
 			}
 			f = fr[0]
 			more = append(more, fr[1:]...)
@@ -824,36 +824,32 @@ func (e *Exec) zeroResults(fn *ssa.Function) Value {
 
 // continueAfterCall distributes callee outcomes over (clones of) the calling frame.
 func (e *Exec) continueAfterCall(f *Frame, call *ssa.Call, outs []Outcome) (frames []*Frame, done []Outcome) {
-	first := true
+	var usable []Outcome
 	for _, o := range outs {
 		switch o.Kind {
 		case OutPruned, OutError:
 			done = append(done, o)
-			continue
+		default:
+			usable = append(usable, o)
 		}
+	}
+	for i, o := range usable {
 		var nf *Frame
-		if first {
+		if i == len(usable)-1 {
 			nf = f
-			first = false
 			nf.st = o.St
 		} else {
 			nf = f.clone(o.St)
 		}
 		if o.Kind == OutPanic {
 			nf.unwinding = &panicRec{val: o.Pan}
-			if f.unwinding != nil && f.unwinding.recovered {
-				// a deferred call recovered and then panicked again: new panic replaces
-			}
 			nf.runningDefers = false
-		} else {
-			if call != nil {
-				nf.locals[call] = o.Ret
-				nf.pc++
-			}
+		} else if call != nil {
+			nf.locals[call] = o.Ret
+			nf.pc++
 		}
 		frames = append(frames, nf)
 	}
-	// careful: if the first outcomes were pruned and f was not reused, fine.
 	return
 }
 
